@@ -17,6 +17,7 @@ def run(ctx):
     R4 = ctx.rule('C11.R4', 'a duplicate object key leads to the error state before anything is stored')
     R5 = ctx.rule('C11.R5', 'string writer (generic_append) is exact against RFC 8259 section 7: every byte sequence of length 1 and 2 is written as a quoted string that decodes back to it, with ", \\ and U+0000..U+001F escaped (E3)')
     R8 = ctx.rule('C11.R8', 'parsed strings keep their length: the parser never hands a token to a NUL-terminated (char const *) interface, so names and values containing \\u0000 are stored whole')
+    R9 = ctx.rule('C11.R9', 'object keys are ordered and compared over their whole length: the string_key comparison operators the object map relies on reach no NUL-terminated C string primitive (a name containing \\u0000 is a legal, distinct key)')
     R6 = ctx.rule('C11.R6', 'numbers are written / read under the C locale: write() brackets write_value(), the tokenizer brackets the stream; every public writer goes through write()')
     R7 = ctx.rule('C11.R7', 'integer / float extraction returns only past the round-trip / range comparison')
 
@@ -126,16 +127,15 @@ def run(ctx):
                 for d in ps.N(i)['decls']:
                     if d.get('init') is not None and ins[0] in set(ps.walk(d['init'])):
                         resv = d['ref']
-        g_new = ps.gate_edges(lambda atom, pol: ps.N(atom)['k'] == 'BinaryOperator' and ps.N(atom).get('op') in ('==', '!=') and resv in ps.subtree_refs(atom) and
-                              any(model.strip_targs(r).endswith('pair::second') for r in ps.subtree_refs(atom)) and
-                              ((ps.N(atom)['op'] == '==' and ps.const_value(ps.N(atom)['ch'][1]) == 0 and pol is False) or (ps.N(atom)['op'] == '!=' and ps.const_value(ps.N(atom)['ch'][1]) == 0 and pol is True)))
+        is_second = lambda x: ps.N(x)['k'] == 'MemberExpr' and model.strip_targs(ps.N(x).get('ref') or '').endswith('pair::second') and resv in ps.subtree_refs(x)
+        g_new = q.truth_gate(ps, is_second, True)
         valv = [d['ref'] for i in ps.all_nodes() if ps.N(i)['k'] == 'DeclStmt' for d in ps.N(i)['decls'] if d.get('init') is not None and resv in ps.subtree_refs(d['init']) and d.get('isref')]
         uses = [i for i in ps.all_nodes() if ps.N(i).get('ref') in valv and ps.point_of(i)]
         ctx.check(bool(valv) and bool(uses) and all(ps.only_through(u, g_new) for u in uses), R4, 'parse_stream:duplicate-key-rejected-before-store', 'a duplicate key overwrites / is stored instead of being an error', ps.loc(ins[0]))
         # the duplicate edge sets st_error
-        dup = ps.gate_edges(lambda atom, pol: ps.N(atom)['k'] == 'BinaryOperator' and ps.N(atom).get('op') == '==' and resv in ps.subtree_refs(atom) and ps.const_value(ps.N(atom)['ch'][1]) == 0 and pol is True)
+        dup = q.truth_gate(ps, is_second, False)
         oke = False
-        for (b, s, lab, tag) in dup:
+        for (b, s, lab, tag) in [e_ for e_ in dup if len(e_) == 4]:
             for e in ps.blocks[s].elems:
                 if 'n' in e and ps.N(e['n'])['k'] == 'BinaryOperator' and ps.N(e['n']).get('op') == '=' and ps.ref_of(ps.N(e['n'])['ch'][0]) == statev and any(r.endswith('::st_error') for r in ps.subtree_refs(ps.N(e['n'])['ch'][1])):
                     oke = True
@@ -179,7 +179,18 @@ def run(ctx):
             g = f.gate_edges(lambda atom, pol, f=f: f.N(atom)['k'] == 'BinaryOperator' and f.N(atom).get('op') in ('<', '>') and pol is False)
             ok = bool(rets) and all(f.only_through(r, g) for r in rets) and len(g) >= 2
         else:
-            g = f.gate_edges(lambda atom, pol, f=f: f.N(atom)['k'] == 'BinaryOperator' and f.N(atom).get('op') == '!=' and any(q.short_of(f.callee(j)) == 'number' for j in f.calls(atom)) and pol is False)
+            def round_trip(atom, pol, f=f):
+                # `converted != v.number()` is false: one operand has the extraction type, the other is the stored double (possibly through a local)
+                n_ = f.N(atom)
+                if n_['k'] != 'BinaryOperator' or n_.get('op') != '!=' or pol is not False:
+                    return False
+                ty = lambda x: (f.type_of(f.N(f.strip(x))) or '').replace('const ', '').strip()
+                for a_, b_ in (n_['ch'], n_['ch'][::-1]):
+                    if ty(a_) == f.ret and ty(b_) == 'double' and any(q.short_of(f.callee(j)) == 'number' for j in q.expr_calls_deep(f, b_)) and \
+                            any(q.short_of(f.callee(j)) == 'number' for j in q.expr_calls_deep(f, a_)):
+                        return True
+                return False
+            g = f.gate_edges(round_trip)
             ok = bool(rets) and all(f.only_through(r, g) for r in rets)
             thr = [i for i in f.walk() if f.N(i)['k'] == 'CXXThrowExpr']
             ok = ok and bool(thr)
@@ -354,7 +365,29 @@ def run(ctx):
     ctl = [f for f in P.by_bname.get(J + '::value::find', []) if 'basic_string' in f.id]
     ctx.require(ctl and cstr_narrowings(ctl[0]), 'C11.R8: the c_str() detector no longer matches its positive control value::find(std::string const &)')
     ctx.check(True, R8, 'detector:positive-control:value::find', loc=ctl[0].where)
+
+    # ---------------- R9 key comparison sees the whole key
+    CSTR = ('strcmp', 'strncmp', 'strcoll', 'strlen', 'strcasecmp', 'strncasecmp', 'strstr', 'strchr', 'strcpy', 'strncpy', 'strnlen', 'strxfrm')
+    cmps = [f for f in P.fns.values() if f.brecord == 'cppcms::string_key' and f.short in ('operator<', 'operator>', 'operator<=', 'operator>=', 'operator==', 'operator!=') and len(f.params) == 1 and f.body is not None and f.body >= 0]
+    ctx.require(len(cmps) >= 6, 'C11.R9: string_key comparison operators not found')
+    for f in sorted(cmps, key=lambda g: g.short):
+        seen, todo, hit = set(), [f], []
+        while todo:
+            g = todo.pop()
+            if g.id in seen:
+                continue
+            seen.add(g.id)
+            for i in g.calls():
+                nm = g.callee(i) or ''
+                if q.short_of(g.bcallee(i) or nm) in CSTR and not (g.bcallee(i) or '').startswith('cppcms::'):
+                    hit.append((g, i))
+                h = P.fns.get(g.N(i).get('callee') or '')
+                if h is not None and h.brecord == 'cppcms::string_key' and h.body is not None and h.body >= 0:
+                    todo.append(h)
+        ctx.check(not hit, R9, 'string_key::%s:length-delimited' % f.short, 'keys are compared with %s, which stops at the first NUL byte: two different names that agree up to a \\u0000 become the same key' % (hit[0][0].callee(hit[0][1]) if hit else ''),
+                  hit[0][0].loc(hit[0][1]) if hit else f.where, detail={'functions_followed': len(seen)})
     ctx.floor(R1, 8)
+    ctx.floor(R9, 6)
     ctx.floor(R2, 4)
     ctx.floor(R3, 4)
     ctx.floor(R4, 3)
